@@ -126,6 +126,21 @@ def loadRange (bytes : List UInt8) : List (Nat × Nat) × List UInt8 :=
   let bounds := prefixSums 0 rr.1
   (bounds.zip (bounds.drop 1), rr.2)
 
+/-- mirrors: value/range.rs::RangeValueWriter::write — the stored boundaries: the first start, then
+every end (a range must start where the previous one ended: `assert_eq!`) -/
+def rangeBounds : List (Nat × Nat) → List Nat
+  | [] => []
+  | r :: rest => r.1 :: r.2 :: rest.map (·.2)
+
+/-- mirrors: value/range.rs::serialize_block (count of boundaries, boundary deltas) -/
+def serRange (rs : List (Nat × Nat)) : List UInt8 := serU64Mono (rangeBounds rs)
+
+/-- consecutive ranges partition an interval -/
+def Contig : List (Nat × Nat) → Prop
+  | [] => True
+  | [_] => True
+  | a :: b :: rest => a.2 = b.1 ∧ Contig (b :: rest)
+
 /-! ## file framing (`Writer::finish`, `BlockReader::read_block`) -/
 
 def u32le (bs : List UInt8) : Nat :=
@@ -162,5 +177,24 @@ def readBlocks : Nat → List UInt8 → Option (List RawBlock)
             | some bs =>
               some ((if c.toNat = 1 then RawBlock.compressed (payloadAndRest.take plen)
                      else RawBlock.plain (payloadAndRest.take plen)) :: bs)
+
+end TantivyModel.SSTable
+
+namespace TantivyModel.SSTable
+open TantivyModel
+
+structure OpenedFile where
+  data : List UInt8
+  index : List UInt8
+  numTerms : Nat
+  version : Nat
+  deriving DecidableEq, Repr
+
+/-- mirrors: Dictionary::open — the last 20 bytes are `index_offset u64 | num_terms u64 |
+version u32`; the data blocks are `[0, index_offset)`, the index region what lies between -/
+def openFile (bytes : List UInt8) : OpenedFile :=
+  let foot := bytes.drop (bytes.length - Gen.SSTABLE_FOOTER_LEN)
+  let main := bytes.take (bytes.length - Gen.SSTABLE_FOOTER_LEN)
+  ⟨main.take (u64le foot), main.drop (u64le foot), u64le (foot.drop 8), u32le (foot.drop 16)⟩
 
 end TantivyModel.SSTable
